@@ -560,3 +560,31 @@ package internal
 //@   loop 1 invariant [C13,C17] nothing-recorded-while-searching-for-a-free-name: alias != "" && !mhas("map[string]string", addImports, importPath) && forall(k, int, mhas("map[string]struct{}", aliases, k) == old(mhas("map[string]struct{}", aliases, k))) && forall(k, int, mhas("map[string]string", addImports, k) == old(mhas("map[string]string", addImports, k)))
 //@   ensures [C13,C17] an-import-that-has-a-name-keeps-it: implies(old(mhas("map[string]string", addImports, importPath)), result == old($RECORDED) && forall(k, int, mhas("map[string]struct{}", aliases, k) == old(mhas("map[string]struct{}", aliases, k))))
 //@   ensures [C13,C17] a-new-import-gets-an-unused-name-which-is-recorded: implies(!old(mhas("map[string]string", addImports, importPath)), !old(mhas("map[string]struct{}", aliases, result)) && mhas("map[string]struct{}", aliases, result) && mhas("map[string]string", addImports, importPath) && result == $RECORDED)
+
+// ---------------------------------------------------------------------------
+// C16: the header pass. Every scanned line is classified (is it a //go:build
+// or // +build line?) and every constraint line that parses is inverted before
+// it is written - no state is carried from one line to the next. Ghost
+// counters: lines read vs lines classified; a parsed constraint awaiting its
+// inversion.
+//@ func writeInvertedCffTag
+//@   option props=[C16]
+//@   option nosafety=true
+//@   ghost nText int = 0
+//@   ghost nClass int = 0
+//@   ghost need bool = false
+//@   at call Text 1 ghost nText = nText + 1
+//@   at call IsGoBuild 1 ghost nClass = nClass + 1
+//@   at call IsPlusBuild 1 pre assert [C16] both-spellings-are-tested-on-the-same-line: arg0 == line
+//@   at call Parse 1 pre assert [C16] the-scanned-line-itself-is-parsed: arg0 == line && nText == nClass
+//@   at call Parse 1 ghost need = ret1 == nil
+//@   at call invertCffConstraint 1 ghost need = false
+//@   loop 1 invariant [C16] every-line-is-classified-and-every-parsed-constraint-is-inverted: nText == nClass && !need
+//@   ensures [C16] every-line-was-classified-and-every-parsed-constraint-inverted: nText == nClass && !need
+
+// C13: directives are looked for in the whole file - package-level variable
+// initialisers included - not only in function bodies.
+//@ func (*compiler).compileFile
+//@   option props=[C13]
+//@   option nosafety=true
+//@   at call astWalk 1 pre assert [C13] the-whole-file-is-searched-for-directives: dataof(arg0) == astFile && typeof(arg0) == typeid("*go/ast.File")
